@@ -9,6 +9,7 @@ times, including after `Close`), short read-locked accessors, `Reap` attempts,
 the blocking reaper and its release.
 -/
 import RqModel.Lemmas.Streamer
+import RqModel.Lemmas.StreamerQuiet
 import RqModel.Lemmas.LockFacts
 import RqModel.Gen.SnapshotLock
 namespace C11
@@ -123,6 +124,54 @@ theorem stalled_stream_unblocks_reaper (steps : List Step)
   refine ⟨hen, ?_⟩
   have hne : ("reap" : String) ≠ "" := by decide
   simp [RqModel.Streamer.step, Mrsw.beginWriteBlocking, hne, hen, hnoreap]
+
+/-- **End to end: stalled streams are force-closed and the blocked reaper then proceeds — for
+every schedule.** Take any reachable state and ANY further schedule `sched` that acquires
+nothing new (finitely many opens have happened; from now on only closes, idle callbacks at
+any times, data-less reads, and releases by short readers / a running reap — in any order and
+any number). If the schedule is fair to the pending timers and holders, i.e.
+* for every stream that is still open it contains its `Close` or an idle callback at or after
+  `lastRead + timeout` (`stalled_stream_force_closed` shows that timer is armed),
+* it contains at least as many short-reader releases / reap releases as are outstanding,
+then at its end every stream is closed, the lock is idle, and the blocking write acquisition
+of `reapLoop` succeeds. -/
+theorem stalled_streams_then_reaper_proceeds (steps sched : List Step)
+    (hq : ∀ st ∈ sched, Quiet st = true)
+    (hstreams : ∀ i a, (run {} steps).streams[i]? = some a →
+      a.closed = true ∨ ∃ st ∈ sched, Ends st i a)
+    (haux : (run {} steps).aux ≤ sched.count .auxEnd)
+    (hreap : (run {} steps).reaping ≤ sched.count .reapEnd) :
+    (∀ st ∈ (run {} (steps ++ sched)).streams, st.closed = true) ∧
+    (run {} (steps ++ sched)).m.writeEnabled = true ∧
+    (RqModel.Streamer.step (run {} (steps ++ sched)) .reapBlocking).reaping = 1 := by
+  have hrun : run {} (steps ++ sched) = run (run {} steps) sched := by simp [run, List.foldl_append]
+  obtain ⟨ha0, hr0⟩ := run_quiet_counts sched (run {} steps) hq haux hreap
+  have hall : ∀ st ∈ (run {} (steps ++ sched)).streams, st.closed = true := by
+    intro st hm
+    rw [hrun] at hm
+    obtain ⟨i, hi, hget⟩ := List.mem_iff_getElem.1 hm
+    have hlen := run_quiet_length sched (run {} steps) hq
+    have hi0 : i < (run {} steps).streams.length := by omega
+    obtain ⟨a', hg', hc'⟩ := run_quiet_closed sched (run {} steps) hq i _
+      (List.getElem?_eq_getElem hi0) (hstreams i _ (List.getElem?_eq_getElem hi0))
+    rw [List.getElem?_eq_getElem hi] at hg'
+    simp only [Option.some.injEq] at hg'
+    rw [← hget, hg']; exact hc'
+  have := stalled_stream_unblocks_reaper (steps ++ sched) hall (by rw [hrun]; exact ha0) (by rw [hrun]; exact hr0)
+  exact ⟨hall, this.1, this.2⟩
+
+/-- **Every release in snapshot/store.go is accounted for** (regenerated): each function's
+`BeginRead`/`BeginReadBlocking`/`BeginWrite`/`BeginWriteBlocking` is immediately followed by
+the matching deferred release, except the read lock taken by `Open`, which is released in
+exactly three other places — `Open`'s own error path, `LockingStreamer.Close` and
+`LockingStreamer.checkIdle` — i.e. it is handed to the stream, whose exactly-once release is
+`release_exactly_once`. This replaces the protocol assumption "End is only called by a holder"
+for the snapshot store. -/
+theorem releases_are_paired :
+    RqModel.Gen.SnapshotLock.lockUse =
+      [("EnsureVerify", 1, 1, 0), ("LatestIndexTerm", 1, 1, 0), ("Len", 1, 1, 0), ("ListAll", 1, 1, 0),
+       ("LockingStreamer.Close", 0, 0, 1), ("LockingStreamer.checkIdle", 0, 0, 1), ("Open", 1, 0, 1),
+       ("Reap", 1, 1, 0), ("Stats", 1, 1, 0), ("Verify", 1, 1, 0), ("reapLoop", 1, 1, 0)] := by decide
 
 /-! ### regenerated facts -/
 
